@@ -42,11 +42,20 @@ func genLock(r *rng, index int) *Spec {
 	if restart {
 		sp.Cfg.SameZKIdentity = index%10 == 9
 	}
+	// contended release: everybody acquires and releases in quick succession while the reply to a
+	// release's delete is often lost (the delete is retried on the re-established connection)
+	contended := index%6 == 5 && !restart
+	if contended {
+		sp.Cfg.LockHeldTTLMs = int64(r.pickInt(0, 0, 1000))
+	}
 	for c := 1; c <= k; c++ {
 		n := r.rangeInt(8, 18)
 		var t int64
 		for i := 0; i < n; i++ {
 			gap := int64(r.pickInt(20, 100, 400, 900, 1500, 2500))
+			if contended {
+				gap = int64(r.pickInt(20, 50, 100, 200, 400))
+			}
 			t += gap
 			op := DCSOp{Client: c, GapMs: gap}
 			switch x := r.intn(10); {
@@ -73,10 +82,13 @@ func genLock(r *rng, index int) *Spec {
 		}
 	}
 	sp.DurationMs = total + 3*sp.Cfg.SessionTimeoutMs + 5000
-	if index%4 != 0 {
+	if index%4 != 0 && !contended {
 		addBFaults(sp, r, k, total+2000)
 	}
-	sp.Variant = fmt.Sprintf("clients=%d ttl=%d session=%d restart=%v sameid=%v", k, sp.Cfg.LockHeldTTLMs, sp.Cfg.SessionTimeoutMs, restart, sp.Cfg.SameZKIdentity)
+	if contended {
+		sp.Rates = RateSpec{FromMs: 0, ToMs: total + 2000, ZKResetAfterDelete: []float64{0.2, 0.4}[r.intn(2)], ZKSlow: []float64{0, 0.03}[r.intn(2)]}
+	}
+	sp.Variant = fmt.Sprintf("clients=%d ttl=%d session=%d restart=%v sameid=%v contended=%v", k, sp.Cfg.LockHeldTTLMs, sp.Cfg.SessionTimeoutMs, restart, sp.Cfg.SameZKIdentity, contended)
 	sp.Primary = []string{"C03"}
 	return sp
 }
